@@ -99,6 +99,7 @@ compute_contracted_info = Contract(
     },
 )
 
+compute_contracted_info.prefer_hints = True
 CONTRACTS = [legs_union, legs_without, compute_contracted_info]
 
 _U = "abcdefg"
